@@ -131,6 +131,79 @@ class Env:
         self.saved.clear()
         self.cms.clear()
 
+    def kwargs(self, kw):
+        """keyword arguments for seterr/errstate; a reaction written "<callable:N>" is handed over as a callable object
+        (no reaction is a callable: the model treats the text as the unknown reaction it is)"""
+        out = {}
+        for k, v in kw:
+            out[k] = self.cbs[int(v[10:-1])] if isinstance(v, str) and v.startswith("<callable:") else v
+        return out
+
+    def prelude(self, kind):
+        """something that went wrong EARLIER in the process and was dealt with by the caller; the profile is put back to
+        its defaults afterwards (reset), so none of it may matter to the program that follows"""
+        E = self.E
+        if kind == "raising-callback":
+            def boom(item):
+                raise RuntimeError("callback failed")
+            k = self.kinds[0]
+            E.seterrcall(k, boom)
+            E.seterr(**{k: "call"})
+            try:
+                E.errcheck(FakeItem([k]))
+            except RuntimeError:
+                pass
+        elif kind == "warning-as-error":
+            k = self.kinds[-1]
+            E.seterr(**{k: "warn"})
+            with warnings.catch_warnings():
+                warnings.simplefilter("error")
+                try:
+                    E.errcheck(FakeItem([k]))
+                except Warning:
+                    pass
+        elif kind == "callback-builds-offending-table":
+            import numpy as np
+            from biom import Table
+
+            def nested(item):
+                try:
+                    Table(np.ones((2, 2)), ["a", "a"], ["x", "y"])
+                except E.TableException:
+                    pass
+            E.seterrcall("empty", nested)
+            E.seterr(empty="call")
+            try:
+                E.errcheck(FakeItem(["empty"]))
+            except Exception:
+                pass
+        self.reset()
+
+    def failing_call(self, which):
+        """a real table operation that is refused for a reason unrelated to the error profile; the caller catches it"""
+        import numpy as np
+        from biom import Table
+        with self.E.errstate(all="ignore"):
+            pass
+        t = Table(np.array([[1., 2.], [3., 4.]]), ["a", "b"], ["x", "y"])
+        calls = {
+            "subsample-bad-axis": lambda: t.subsample(2, axis="bogus"),
+            "subsample-negative-replacement": lambda: Table(np.array([[-1., 2.], [3., 4.]]), ["a", "b"], ["x", "y"]).subsample(
+                2, with_replacement=True),
+            "filter-unknown-id": lambda: t.filter(["nope"], axis="sample", inplace=False),
+            "update-ids-strict-missing": lambda: t.update_ids({"zz": "y"}, strict=True, inplace=False),
+            "sort-order-unknown": lambda: t.sort_order(["nope", "x"]),
+            "transform-function-raises": lambda: t.transform(lambda v, i, m: 1 / 0, inplace=False),
+            "collapse-function-raises": lambda: t.collapse(lambda i, m: 1 / 0, axis="sample"),
+            "norm-bad-axis": lambda: t.norm(axis="bogus", inplace=False),
+            "concat-overlap": lambda: t.concat([t]),
+            "merge-bad-mode": lambda: t.merge(t, sample="bogus"),
+        }
+        try:
+            calls[which]()
+        except Exception:
+            pass
+
     def snap(self):
         return [[k, v] for k, v in sorted(self.E.geterr().items())]
 
@@ -183,7 +256,7 @@ class Env:
         if op == "seterr":
             before = self.snap()
             try:
-                E.seterr(**dict(prog["kw"]))
+                E.seterr(**self.kwargs(prog["kw"]))
                 refused = False
             except KeyError:
                 refused = True
@@ -206,6 +279,8 @@ class Env:
                 refused = True
             return {"op": "seterrcall", "st": st, "refused": refused}
         if op == "check":
+            if prog.get("after_failing"):
+                self.failing_call(prog["after_failing"])
             item = FakeItem(prog["trig"])
             return self.observe_check(item, prog["trig"], lambda: E.errcheck(item))
         if op == "raise":
@@ -234,10 +309,10 @@ class Env:
                     # so that nested nodes with the same keywords re-enter the same object (as a recursive function does)
                     key = repr(prog["kw"])
                     if key not in self.cms:
-                        self.cms[key] = E.errstate(**dict(prog["kw"]))
+                        self.cms[key] = E.errstate(**self.kwargs(prog["kw"]))
                     self.cms[key](block)()
                 else:
-                    with E.errstate(**dict(prog["kw"])):
+                    with E.errstate(**self.kwargs(prog["kw"])):
                         block()
             except KeyError:
                 if holder.get("entered") is not None:
@@ -275,9 +350,15 @@ def gen_kw(rng, kinds, allow_bad=True):
     for k in ks:
         r = rng.choice(REACTIONS)
         if allow_bad and rng.random() < 0.06:
-            r = "zzz"
+            r = rng.choice(["zzz", "<callable:1>", "<callable:2>", "Raise", ""])
         kw.append([k, r])
     return kw
+
+
+FAILING = ["subsample-bad-axis", "subsample-negative-replacement", "filter-unknown-id", "update-ids-strict-missing",
+           "sort-order-unknown", "transform-function-raises", "collapse-function-raises", "norm-bad-axis", "concat-overlap",
+           "merge-bad-mode"]
+PRELUDES = ["raising-callback", "warning-as-error", "callback-builds-offending-table"]
 
 
 def gen_prog(rng, kinds, depth):
@@ -296,7 +377,10 @@ def gen_prog(rng, kinds, depth):
                 trig = []
             else:
                 trig = sorted(rng.sample(kinds, rng.choice([2, 3])))
-            return {"op": "check", "trig": trig}
+            node = {"op": "check", "trig": trig}
+            if rng.random() < 0.08:
+                node["after_failing"] = rng.choice(FAILING)
+            return node
         return {"op": "raise"}
     if c < 0.7:
         return {"op": "seq", "a": gen_prog(rng, kinds, depth - 1), "b": gen_prog(rng, kinds, depth - 1)}
@@ -317,13 +401,18 @@ def prog_size(p):
     return 1
 
 
-def check_prog(ctx, env, prog, tags=(), obs=None):
+def check_prog(ctx, env, prog, tags=(), obs=None, prelude=None):
     env.reset()
+    if prelude:
+        env.prelude(prelude)
+        tags = tuple(tags) + ("prelude:" + prelude,)
     state = env.snap()
     if obs is None:
         obs = env.run(prog)
     case = {"prog": prog, "state": state, "obs": obs}
-    ctx.case({"prog": prog}, nontrivial=prog_size(prog) >= 2)
+    if prelude:
+        case["prelude"] = prelude
+    ctx.case({"prog": prog, "prelude": prelude}, nontrivial=prog_size(prog) >= 2)
     r = ctx.driver.ask(case)
     ctx.count("out=" + str(out_of(obs)))
     if not r["model_holds"]:
@@ -399,6 +488,32 @@ def run(ctx):
                                       "a": {"op": "errstate", "kw": [["sampdup", "print"]], "via": "Exception",
                                             "body": {"op": "errstate", "kw": kw, "body": body, "via": via}},
                                       "b": {"op": "check", "trig": ["sampdup"]}}, ("exceptional-exit", "nested", "via:" + via))
+    # what went wrong earlier in the process must not matter: a callback that raised, a warning escalated to an error,
+    # a callback that itself built an offending table — then, with the profile back at its defaults, every kind x reaction
+    for pre in PRELUDES:
+        for k in kinds:
+            for r in REACTIONS:
+                check_prog(ctx, env, {"op": "seq", "a": {"op": "seterr", "kw": [[k, r]]}, "b": {"op": "check", "trig": [k]}},
+                           ("after-earlier-failure",), prelude=pre)
+    # a table operation refused for a reason of its own, inside and outside a scoped override: the profile in force
+    # afterwards is the one in force before (observed by the snapshot of the following check and by its reaction)
+    for which in FAILING:
+        for kw in ([["empty", "raise"]], [["all", "print"]], [["empty", "call"], ["obsdup", "warn"]]):
+            chk = {"op": "check", "trig": ["empty"], "after_failing": which}
+            check_prog(ctx, env, {"op": "seq", "a": {"op": "seterr", "kw": kw}, "b": chk}, ("after-failing-call", which))
+            check_prog(ctx, env, {"op": "seq", "a": {"op": "errstate", "kw": kw, "body": {"op": "seq", "a": chk, "b": {"op": "check", "trig": ["obsdup"]}}},
+                                  "b": {"op": "check", "trig": ["empty"]}}, ("after-failing-call", "scoped", which))
+    # a callable where a reaction is expected is refused like any unknown reaction, alone, next to valid keywords, with 'all',
+    # scoped — and leaves reactions AND callbacks as they were (the following checks run under 'call')
+    for kw in ([["empty", "<callable:1>"]], [["all", "<callable:2>"]], [["obsdup", "call"], ["empty", "<callable:1>"]],
+               [["empty", "<callable:3>"], ["bogus", "raise"]]):
+        tail = {"op": "seq", "a": {"op": "seterr", "kw": [["all", "call"]]},
+                "b": {"op": "seq", "a": {"op": "check", "trig": ["empty"]}, "b": {"op": "check", "trig": ["obsdup"]}}}
+        check_prog(ctx, env, {"op": "seq", "a": {"op": "seterrcall", "kind": "empty", "cb": 2},
+                              "b": {"op": "seq", "a": {"op": "seterr", "kw": kw}, "b": tail}}, ("callable-reaction",))
+        check_prog(ctx, env, {"op": "seq", "a": {"op": "seterrcall", "kind": "empty", "cb": 2},
+                              "b": {"op": "seq", "a": {"op": "errstate", "kw": kw, "body": {"op": "check", "trig": ["empty"]}}, "b": tail}},
+                   ("callable-reaction", "scoped"))
     # the override used as a decorator, entered once, twice and three times from inside itself, left normally or not
     for kw in ([["empty", "raise"]], [["all", "ignore"]], [["obsdup", "warn"], ["empty", "print"]]):
         for depth in (1, 2, 3):
@@ -657,7 +772,7 @@ def run(ctx):
         if prog_size(prog) < 3:
             # observe the profile after the fragment through a following check
             prog = {"op": "seq", "a": prog, "b": {"op": "check", "trig": [ctx.rng.choice(kinds)]}}
-        r = check_prog(ctx, env, prog, ("random",))
+        r = check_prog(ctx, env, prog, ("random",), prelude=(ctx.rng.choice(PRELUDES) if ctx.rng.random() < 0.1 else None))
         ctx.count("size=%d" % min(prog_size(prog), 12))
     env.reset()
     import glob
@@ -671,5 +786,5 @@ def run(ctx):
 def replay(ctx, rec):
     env = Env()
     case = rec["case"]
-    check_prog(ctx, env, case["prog"], ("replay",))
+    check_prog(ctx, env, case["prog"], ("replay",), prelude=case.get("prelude"))
     env.reset()
